@@ -87,6 +87,9 @@ type world struct {
 	hbSuffix  string
 	actors    []*actor
 	owner     int   // actor whose mkdir created the current lock directory (-1 none)
+	// lastEventEnd: completion (unix nanos) of the newest creation / removal of the lock directory recorded so far
+	lastEventEnd int64
+	outOfOrder   bool
 	ownerSeq  int64 // sequence number of that mkdir
 	seq       atomic.Int64
 	known     string // a listed protocol race happened: the rest of the history is not judged
@@ -203,6 +206,15 @@ func (w *world) after(op *fsx.Op) {
 	}
 	if a == nil {
 		return
+	}
+	// Creations and removals are recorded when their completion is reported, by goroutines of this process: on a busy
+	// machine a report can be overtaken by the report of an operation that completed later. The book-keeping of who owns the
+	// directory is then wrong (a creation recorded after the removal that destroyed it): such a history is not judged.
+	if op.End < w.lastEventEnd {
+		w.outOfOrder = true
+	}
+	if op.End > w.lastEventEnd {
+		w.lastEventEnd = op.End
 	}
 	switch op.Kind {
 	case "mkdir":
@@ -529,6 +541,10 @@ func runCase(t ev.T, test string, c Case) (known string) {
 		if w.known == "starved" {
 			w.known = ""
 		}
+	}
+	if w.violation != "" && w.outOfOrder {
+		ev.Inconclusive("creations / removals of the lock directory were reported out of order (machine load): history not judged")
+		return w.known
 	}
 	if w.violation != "" && time.Duration(maxGap.Load()) > 30*time.Millisecond {
 		ev.Inconclusive("process stalled during the history (heart-beats could not run every period)")
